@@ -24,6 +24,8 @@ for d in $(ls -d "$HERE"/seeded/*"${ONLY:-}"*/ | xargs -n1 basename); do
     C06-r4-1) extra="C18";; C11-r4-2) extra="C05";; C05-r4-2) extra="C11";;
     C01-r5-1) extra="C03";; C01-r5-2) extra="C08";; C05-r5-1) extra="C11";; C11-r5-1) extra="C10";; C11-r5-2) extra="C14";; C10-r5-1) extra="C11";;
     C17-r5-1) extra="C01";;
+    C02-r6-1) extra="C01 C03";; C06-r6-1|C06-r6-2) extra="C08";; C09-r6-2) extra="C08";; C13-r6-1) extra="C12 C14";; C16-r6-1) extra="C01";;
+    C16-r6-2) extra="C15";; C07-r6-2) extra="C15";; C15-r6-2) extra="C07";;
   esac
   echo "$d $id $extra" | sed 's/ *$//' >> "$OUT.jobs"      # (xargs -L continues a line that ends in a blank)
 done
